@@ -14,7 +14,7 @@ ELL = Sym("...")
 LIT = "lit"
 
 PELEMS = ["var", "_", "lit", 1, True, "s", ["var"], Vec(["var"]), ["var", "..."], ["var", "var"], Vec(["var", "..."])]
-UELEMS = [S("a"), S(LIT), 1, 2, True, "s", [], [S("a")], Vec([S("a")]), [1, 2], [S("a"), S(LIT)], Vec([1, 2])]
+UELEMS = [S("a"), S(LIT), 1, 2, True, "s", [], [S("a")], Vec([S("a")]), [1, 2], [S("a"), S(LIT)], Vec([1, 2]), Dot([S("a")], 2), Dot([1, 2], S("a"))]
 
 
 def realize(skel, counter):
@@ -84,8 +84,11 @@ def template_for(p, idx, rng=None):
         elif style == 2:
             for nme in names:
                 items += [nme, ELL]
-        else:
+        elif style == 3 and (rng is None or rng.random() < 0.5):
             items += [Vec([S("k")] + names), ELL]
+        else:
+            # a dotted sub-template under the ellipsis: (k . v) ... or (v1 . v2) ...
+            items += [Dot([S("k")] + names[:-1], names[-1]), ELL]
     return items
 
 
@@ -99,6 +102,8 @@ def rand_datum(rng, depth):
         return rng.choice([S("a"), S("b"), S(LIT), 1, 2, 7, True, False, "s", "t", Char("c")])
     n = rng.randint(0, 3)
     items = [rand_datum(rng, depth - 1) for _ in range(n)]
+    if items and rng.random() < 0.12:
+        return Dot(items, rng.choice([S("a"), 1, 2, "s"]))      # a dotted datum: no proper-list pattern matches it
     return Vec(items) if rng.random() < 0.3 else items
 
 
@@ -185,8 +190,10 @@ def mutate_use(rng, u):
         del pseq[i]
     elif k < 0.4:
         pseq.insert(i, rand_datum(rng, 1))
-    elif k < 0.6:
+    elif k < 0.5:
         pseq[i] = Vec(x) if isinstance(x, list) else (list(x.items) if isinstance(x, Vec) else [x])
+    elif k < 0.6:
+        pseq[i] = Dot(list(x), rng.choice([3, S("a")])) if isinstance(x, list) and x else ([x] if not isinstance(x, Dot) else list(x.items))
     elif k < 0.8:
         pseq[i] = rng.choice([S("a"), S(LIT), 1, 2, "s", "t", True, False])
     else:
@@ -222,9 +229,17 @@ def uskel(x):
     return show(x)
 
 
+def use_text(u):
+    if isinstance(u, Dot):
+        return "(m %s . %s)" % (" ".join(show(x) for x in u.items), show(u.tail))
+    return "(m %s)" % " ".join(show(x) for x in u)
+
+
 def judge(ctx, rules, use, step, via):
     machine = Machine()
     try:
+        if isinstance(use, Dot):
+            raise ref_macro.NoMatch()       # the use itself is a dotted list: no proper-list pattern matches it
         idx, datum = ref_macro.expand(rules, {LIT}, use)
         exp = ("ok", idx, datum)
     except ref_macro.NoMatch:
@@ -254,9 +269,9 @@ def judge(ctx, rules, use, step, via):
         ctx.nontriv(key)
         ctx.count("agree_" + exp[0])
         return
-    desc.update({"kind": "macro", "via": via, "rules": define_text(rules), "use": "(m %s)" % " ".join(show(x) for x in use),
+    desc.update({"kind": "macro", "via": via, "rules": define_text(rules), "use": use_text(use),
                  "dedupe": "%s|%s|%s" % (desc["what"][:40], via, len(rules))})
-    ctx.violation(desc, {"define": define_text(rules), "use": "(m %s)" % " ".join(show(x) for x in use)})
+    ctx.violation(desc, {"define": define_text(rules), "use": use_text(use)})
 
 
 def run(tier, seed):
@@ -302,6 +317,8 @@ def run(tier, seed):
             us.append(u)
             for _ in range(3):
                 us.append(mutate_use(rng, u))
+            if u and rng.random() < 0.3:
+                us.append(Dot(list(u), rng.choice([3, S("a"), []]) or 3))     # the whole use as a dotted list
         rulesets.append((rules, us))
     ctx.rule = ("(a) every single-rule macro whose pattern has <= %d elements over {var _ literal-id 1 #t \"s\" (var) #(var) (var ...) (var var) #(var ...)} with an optional final ellipsis, "
                 "against every use of <= %d arguments over 12 data%s; sampled two-rule sets over the same patterns; (b) random rule sets (1-5 rules, pattern depth <= 3) with uses "
@@ -311,7 +328,7 @@ def run(tier, seed):
     ctx.observed["single_rule_patterns"] = n_single
     jobs = []
     for rules, us in rulesets:
-        steps = [{"src": define_text(rules)}] + [{"src": "(m %s)" % " ".join(show(x) for x in u), "disp": True} for u in us]
+        steps = [{"src": define_text(rules)}] + [{"src": use_text(u), "disp": True} for u in us]
         jobs.append({"id": "c04", "interps": [{"stdlib": True}], "steps": steps, "fuel": 20000})
     recs = core.run_jobs(jobs, "dev" if tier == "quick" else "release", timeout=900 if tier == "quick" else 3000, tag="c04")
     for (rules, us), rec in zip(rulesets, recs):
@@ -331,7 +348,7 @@ def run(tier, seed):
     ctx.legs.append("eval")
     # ---------------- Transformer::transform on a sample
     sample = rng.sample(rulesets, min(len(rulesets), 300 if tier == "quick" else core.share(3000)))
-    ejobs = [{"id": i, "def": define_text(rules), "uses": ["(m %s)" % " ".join(show(x) for x in u) for u in us[:40]]} for i, (rules, us) in enumerate(sample)]
+    ejobs = [{"id": i, "def": define_text(rules), "uses": [use_text(u) for u in us[:40]]} for i, (rules, us) in enumerate(sample)]
     erecs = core.run_driver("expand", ejobs, "dev" if tier == "quick" else "release", timeout=600, tag="c04x")
     for (rules, us), rec in zip(sample, erecs):
         if not rec or "results" not in rec:
@@ -346,7 +363,7 @@ def run(tier, seed):
             judge(ctx, rules, u, step, "transform")
     ctx.legs.append("transform")
     for rules, us in rulesets[5:7] + rulesets[-2:]:
-        ctx.sample({"define": define_text(rules), "uses": ["(m %s)" % " ".join(show(x) for x in u) for u in us[:4]]})
+        ctx.sample({"define": define_text(rules), "uses": [use_text(u) for u in us[:4]]})
     return ctx.finish(min_evals=1000, min_nontrivial=100)
 
 
